@@ -102,9 +102,16 @@ def check_unlink(run, db):
                     continue
                 itv = m.group(1)
                 if not re.search(r'\w\(.*\)$', itv):
-                    # the interval is not the result of a search call but assembled in this function (the search loop inlined by hand):
-                    # the count cannot be related to the returned node by this rule - undecided, not a violation
-                    run.broke('%s counts the interval %s, which is not the result of a search function: the array branch is not decidable by R-UNLINK' % (f.display, itv[:40]))
+                    # the interval is not the result of a search call but a local assembled in this function (the search loop inlined
+                    # by hand): the counted interval is that local, the returned node must be the value of its `first` on this path
+                    szc = [c for c in s.calls if c[1].get('k') == 'call' and c[1].get('short') == 'size' and c[0] == atoms[0]]
+                    rv = sym.strip_casts(szc[0][1].get('recv') or {}) if szc else {}
+                    key = ('local:%s.first' % rv.get('name')) if rv.get('k') == 'local' else None
+                    val = s.fields.get(key) if key else None
+                    if val is None:
+                        run.broke('%s counts the interval %s, which is neither the result of a search function nor a local of this function: the array branch is not decidable by R-UNLINK' % (f.display, itv[:40]))
+                    elif s.ret is None or sym.canon(val, {}) not in s.ret:
+                        probs.append('returns %s but counts the interval whose first node is %s' % (s.ret, sym.canon(val, {})[:60]))
                     continue
                 if s.ret is None or not (itv + '.first') in s.ret:
                     probs.append('returns %s but counts the interval %s' % (s.ret, itv))
@@ -130,6 +137,7 @@ def check_unlink(run, db):
         if f is not None:
             n += 1
             probs = []
+            cap_deltas = []
             for s in _summ(db, f, {0: 'mem', 1: 'size'}):
                 if s.end != 'return':
                     continue
@@ -138,8 +146,7 @@ def check_unlink(run, db):
                     probs.append('capacity_ written %d times' % len(cw))
                     continue
                 d = _cap_delta(s, {0: 'mem', 1: 'size'})
-                if d != {'($size / this.node_size_)': 1}:
-                    probs.append('capacity_ grows by [%s], the nodes linked are size / node_size_' % linear.fmt(d or {}))
+                cap_deltas.append(d or {})
                 if not _links_rewritten(s):
                     probs.append('no links written')
             # the linking loop / helper runs over the same count: a counted loop (engine/loops.py) that links once per cycle makes
@@ -161,10 +168,20 @@ def check_unlink(run, db):
                     for vals, pre in loops.entry_state(f, lp, db=db, roles=rl):
                         T, needs = loops.evaluations(c, linear.lin(loops.subst_vals(f, c.ctr_term, vals, rl), rl), linear.lin(loops.subst_vals(f, c.bound, vals, rl), rl))
                         ex = loops.executions(c, inl[0].block, T)
-                        if ex != {'($size / this.node_size_)': 1, '': -1}:
-                            probs.append('the linking loop is not bounded by the node count size / node_size_: it links [%s] nodes to their successors, expected [size / node_size_ - 1]' % linear.fmt(ex))
+                        # the helper takes the bytes (count = size / node_size_) or the node count itself; either way it counts exactly
+                        # the nodes it links: links between neighbours + the last node
+                        linked = linear._add(ex, {'': 1}, 1)
+                        if linked not in ({'($size / this.node_size_)': 1}, {'$size': 1}):
+                            probs.append('the linking loop is not bounded by the node count size / node_size_: it links [%s] nodes to their successors, expected [node count - 1]' % linear.fmt(ex))
+                        for d in cap_deltas:
+                            if d != linked:
+                                probs.append('capacity_ grows by [%s], the nodes linked are [%s]' % (linear.fmt(d), linear.fmt(linked)))
             elif not helper:
                 probs.append('the linking loop is not bounded by the node count size / node_size_')
+            else:
+                for d in cap_deltas:
+                    if d not in ({'($size / this.node_size_)': 1}, {'$size': 1}):
+                        probs.append('capacity_ grows by [%s], the nodes linked are size / node_size_' % linear.fmt(d))
             _emit(run, 'R-UNLINK', f, db, probs, site('insert_impl'), 'links size/node_size_ nodes and counts them')
         # ---- deallocate(ptr, n): ceil(n / node_size) nodes go back
         f = by.get(('deallocate', 2))
@@ -173,26 +190,30 @@ def check_unlink(run, db):
             n += 1
             probs = []
             found = False
-            for s in _summ(db, f, {0: 'ptr', 1: 'n'}):
+            ceil_forms = fwd.ceil_div_forms('$n', 'this.node_size_')
+            accepted = set(ceil_forms)
+            for cf in ceil_forms:
+                prod = sym.canon({'k': 'bin', 'op': '*', 'l': {'k': 'raw', 's': cf}, 'r': {'k': 'raw', 's': 'this.node_size_'}})
+                accepted.add(sym.canon({'k': 'bin', 'op': '/', 'l': {'k': 'raw', 's': prod}, 'r': {'k': 'raw', 's': 'this.node_size_'}}))
+            rl = {0: 'ptr', 1: 'n'}
+            for s in fwd.summarize(f, db=db, roles=rl, extra_forward=lambda a, b: None,
+                                   inline_pred=lambda a, c, t: c.short == 'insert_impl' and c.cls == a.cls or _inl(a, c, t)):
                 if s.end != 'return':
                     continue
-                for c in s.calls:
-                    if c[1].get('short') == 'insert_impl':
-                        found = True
-                        m = re.match(r'^this\.insert_impl\((.*)\)$', c[0])
-                        args = _top_args(m.group(1)) if m else []
-                        S = args[1] if len(args) > 1 else '?'
-                        ceil_forms = fwd.ceil_div_forms('$n', 'this.node_size_')
-                        accepted = set()
-                        for cf in ceil_forms:
-                            accepted.add(sym.canon({'k': 'bin', 'op': '*', 'l': {'k': 'raw', 's': cf}, 'r': {'k': 'raw', 's': 'this.node_size_'}}))
-                        if S in accepted:
-                            continue
-                        if S == '$n':
-                            probs.append('allocate(n) takes ceil(n / node_size_) nodes (search stops at bytes_so_far >= n) but deallocate(ptr, n) passes n unrounded to '
-                                         'insert_impl, which links floor(n / node_size_) nodes: a node is lost whenever node_size_ does not divide n')
-                        else:
-                            probs.append('size given to insert_impl (%s) is not a recognised ceil(n / node_size_) * node_size_ form' % S)
+                if any(c[0].startswith('this.deallocate($ptr)') for c in s.calls):
+                    continue        # single-node branch
+                d = _cap_delta(s, rl)
+                if d is None:
+                    continue
+                found = True
+                atoms = [a for a in d if a]
+                if len(atoms) == 1 and d == {atoms[0]: 1} and atoms[0] in accepted:
+                    continue
+                if d in ({'($n / this.node_size_)': 1},):
+                    probs.append('allocate(n) takes ceil(n / node_size_) nodes (search stops at bytes_so_far >= n) but deallocate(ptr, n) passes n unrounded to '
+                                 'insert_impl, which links floor(n / node_size_) nodes: a node is lost whenever node_size_ does not divide n')
+                else:
+                    probs.append('size given to insert_impl (%s) is not a recognised ceil(n / node_size_) * node_size_ form' % linear.fmt(d)[:120])
             if not found:
                 probs.append('no path reaches insert_impl')
             _emit(run, 'R-UNLINK', f, db, probs, site('deallocate(ptr,n)'), 'returns ceil(n / node_size_) nodes, like allocate(n) took',
@@ -258,6 +279,8 @@ def check_cursor_reset(run, db, rule='R-UNLINK'):
                     if last_link is None or last_link[1] != 'xor_list_set(%s.begin_node(),null,%s.end_node())' % (O, O):
                         probs.append('%s\'s cursor pair is set to (begin proxy, end proxy) on a path that takes over a non-empty list: the two are not neighbours, '
                                      'the next deallocation in the middle searches from a bogus position' % O)
+                elif last_link is not None and last_link[1] == 'xor_list_set(%s.begin_node(),null,%s)' % (O, cv):
+                    pass        # the very node the begin proxy was just linked to
                 else:
                     probs.append('%s.last_dealloc_ becomes %s, which is not known to follow the begin proxy' % (O, cv[:50]))
         if not any_write:
